@@ -3,6 +3,7 @@ package destination
 import (
 	"errors"
 	"fmt"
+	"math"
 	"strings"
 	"sync"
 	"time"
@@ -78,6 +79,9 @@ func New(routeName string, matcher matcher.Matcher, addr, spoolDir string, spool
 	}
 	if spool && (spoolBufSize < 0 || spoolSyncPeriod <= 0) {
 		return nil, errors.New("spoolbuf must be >= 0 and spoolsyncperiod must be > 0")
+	}
+	if connBufSize > math.MaxInt32 || ioBufSize > math.MaxInt32 || (spool && spoolBufSize > math.MaxInt32) {
+		return nil, errors.New("connbuf, iobuf and spoolbuf sizes this large cannot be allocated")
 	}
 	key := util.Key(routeName, addr)
 	addr, instance := addrInstanceSplit(addr)
